@@ -57,6 +57,8 @@ class Graph:
         self.name = name
         self.parent = parent
         self.attrs = {}          # graph [..] attributes
+        self.node_defaults = {}  # node [..] defaults in force so far in this (sub)graph
+        self.edge_defaults = {}
         self.plain = {}          # a=b; statements
         self.nodes = []          # (id, attrs) in this (sub)graph only
         self.edges = []          # (tail, head, attrs)
@@ -156,6 +158,9 @@ class Parser:
             if not self.is_id(name):
                 raise DotSyntaxError("subgraph name expected, got %r" % (name,))
             sub = Graph(name[1], g)
+            # DOT semantics: defaults in force at this point are inherited
+            sub.node_defaults.update(g.node_defaults)
+            sub.edge_defaults.update(g.edge_defaults)
             g.subgraphs.append(self.body(sub))
             return
         if tok in (('id', 'graph'), ('id', 'node'), ('id', 'edge')) and self.peek() == ('punct', '['):
@@ -165,6 +170,10 @@ class Parser:
                     if k in g.attrs:
                         raise DotSyntaxError("graph attribute %r given twice" % k)
                     g.attrs[k] = v
+            elif tok[1] == 'node':
+                g.node_defaults.update(attrs)
+            else:
+                g.edge_defaults.update(attrs)
             return
         if not self.is_id(tok):
             raise DotSyntaxError("statement cannot start with %r" % (tok,))
@@ -183,9 +192,9 @@ class Parser:
                 raise DotSyntaxError("edge head expected, got %r" % (head,))
             if self.peek() == ('arrow', '->'):
                 raise DotSyntaxError("edge chains are not part of the emitted subset")
-            g.edges.append((tok[1], head[1], self.attr_list()))
+            g.edges.append((tok[1], head[1], dict(g.edge_defaults, **self.attr_list())))
             return
-        g.nodes.append((tok[1], self.attr_list()))
+        g.nodes.append((tok[1], dict(g.node_defaults, **self.attr_list())))
 
 
 def parse(text):
